@@ -82,7 +82,7 @@ def snapshot(obj, cls):
 class C16(Check):
     pid = "C16"
     level = "exploration"
-    budgets = {"quick": (450, 16), "thorough": (5500, 16)}
+    budgets = {"quick": (400, 16), "thorough": (5000, 16)}
     rule = (
         "A program = 2-4 inputs of one class (Points, Curve, Surface, DrapeModel) on a half-integer lattice, 1-7 "
         "vertices each; cells = arbitrary index tuples over arbitrary subsets of the vertices in arbitrary order "
@@ -105,6 +105,9 @@ class C16(Check):
         "is the mirror image of the neighbouring prism, which needs two)",
         "each input carries a (name, type, association) label at most once (duplicates are documented as ambiguous)",
         "ghost prisms/layers and their data are not examined beyond being skipped (two per junction)",
+        "'connects the same coordinates' is compared per cell as a multiset of coordinates",
+        "open finding guard: an input (other than the last) whose cells do not reach its last vertex gets one "
+        "extra cell on that vertex unless the program sets allow_known (10 %), counted in excluded_by_finding",
     ]
 
     def strategy(self, tier):
